@@ -23,6 +23,7 @@ import (
 	"errors"
 	"fmt"
 	"os"
+	"runtime/pprof"
 	"sort"
 	"strings"
 	"sync"
@@ -68,7 +69,7 @@ func bareGojqDefines(name string, arity int) bool {
 }
 
 func inventory(outPath string) {
-	o := &vOS{args: []string{"fq", "-n", "."}, stdout: &bytes.Buffer{}, stderr: &bytes.Buffer{}, fsys: memFS{}, env: []string{"NO_COLOR=1"}}
+	o := &vOS{args: []string{"fq", "-n", "."}, stdout: &tailBuffer{}, stderr: &tailBuffer{}, fsys: memFS{}, env: []string{"NO_COLOR=1"}}
 	i := newInterp(o)
 	if err := i.Main(context.Background(), o.Stdout(), "verif"); err != nil {
 		kit.Fatalf("inventory: fq -n . failed: %v %s", err, o.stderr.String())
@@ -147,7 +148,8 @@ type Res struct {
 // parsed builtin modules of the first successful invocation of this worker process (see VerifC13SeedIncludes)
 var parsed map[string]*gojq.Query
 
-const markerPrefix = "\x01C13 "
+// the program's last output is the string "\x01C13 <json list>"; fq prints it as a JSON string on its own line
+const markerPrefix = "\"\\u0001C13 "
 
 func cut(s string, n int) string {
 	if len(s) > n {
@@ -163,12 +165,12 @@ func work(raw json.RawMessage) any {
 	for k, v := range j.Files {
 		files[k] = []byte(v)
 	}
-	args := []string{"fq", "-r", "-n"}
+	args := []string{"fq", "-n"}
 	if j.Repl {
 		args = append(args, "-i")
 	}
 	args = append(args, j.Expr)
-	o := &vOS{args: args, stdin: []byte(j.Stdin), stdout: &bytes.Buffer{}, stderr: &bytes.Buffer{},
+	o := &vOS{args: args, stdin: []byte(j.Stdin), stdout: &tailBuffer{}, stderr: &tailBuffer{},
 		fsys: memFS{files: files}, env: []string{"NO_COLOR=1", "NO_DECODE_PROGRESS=1"}, tty: j.TTY, lines: j.Lines}
 	t0 := time.Now()
 	i := newInterp(o)
@@ -195,8 +197,9 @@ func work(raw json.RawMessage) any {
 		if e := bytes.IndexByte(line, '\n'); e >= 0 {
 			line = line[:e]
 		}
-		if json.Valid(line) {
-			res.Marker = append(json.RawMessage(nil), line...)
+		var str string
+		if json.Unmarshal(append([]byte{'"'}, line...), &str) == nil && json.Valid([]byte(str)) {
+			res.Marker = json.RawMessage(str)
 		}
 	}
 	return res
@@ -273,20 +276,21 @@ func runAll(jobsPath, outPath string, n int, memKB int64, sec int) {
 	// Confirmation starts as soon as the stall is seen and runs beside the pool (each re-run has its own process).
 	var mu sync.Mutex
 	var wg sync.WaitGroup
-	sem := make(chan struct{}, 4)
+	sem := make(chan struct{}, 6)
 	nhung := 0
 	confirm := func(id int) {
 		defer wg.Done()
 		sem <- struct{}{}
 		defer func() { <-sem }()
-		stalls := 0
+		stalls, tries := 0, 0
 		var done *rec
-		for k := 0; k < 2; k++ {
-			kit.RunPool(self, []string{"worker"}, jobs[id:id+1], 1, memKB, per, func(r kit.PoolResult) {
+		for k := 0; k < 2 && done == nil; k++ {
+			tries++
+			kit.RunPool(self, []string{"worker"}, jobs[id:id+1], 1, memKB, 2*per, func(r kit.PoolResult) {
 				oc, msg, res := classify(r)
 				if oc == "hang" {
 					stalls++
-				} else if done == nil {
+				} else {
 					done = &rec{Outcome: oc, Msg: cut(msg, 6000), Ms: res.Ms}
 				}
 			})
@@ -294,11 +298,30 @@ func runAll(jobsPath, outPath string, n int, memKB int64, sec int) {
 		mu.Lock()
 		defer mu.Unlock()
 		if done != nil {
-			done.Retried, done.Stalls = 2, stalls+1
+			done.Retried, done.Stalls = tries, stalls+1
 			recs[id] = *done
 		} else {
-			recs[id].Retried, recs[id].Stalls = 2, 3
+			recs[id].Retried, recs[id].Stalls = tries, stalls+1
 		}
+	}
+	// A process death in a worker that has already served other calls can be an artefact of that history (address
+	// space used up by an earlier call that legitimately needed gigabytes): the fault counts as observed on a
+	// solitary re-run in a fresh worker, which is the deterministic setting of DESIGN section 3.
+	reconfirmFatal := func(id int) {
+		defer wg.Done()
+		sem <- struct{}{}
+		defer func() { <-sem }()
+		kit.RunPool(self, []string{"worker"}, jobs[id:id+1], 1, memKB, 2*per, func(r kit.PoolResult) {
+			oc, msg, res := classify(r)
+			mu.Lock()
+			defer mu.Unlock()
+			recs[id] = rec{Outcome: oc, Msg: cut(msg, 6000), Ms: res.Ms, Retried: 1}
+			if oc == "hang" {
+				recs[id].Stalls = 1
+				wg.Add(1)
+				go confirm(id)
+			}
+		})
 	}
 	kit.RunPool(self, []string{"worker"}, jobs, n, memKB, per, func(r kit.PoolResult) {
 		oc, msg, res := classify(r)
@@ -312,6 +335,9 @@ func runAll(jobsPath, outPath string, n int, memKB int64, sec int) {
 			}
 			wg.Add(1)
 			go confirm(r.ID)
+		} else if strings.HasPrefix(oc, "fatal") {
+			wg.Add(1)
+			go reconfirmFatal(r.ID)
 		}
 	})
 	wg.Wait()
@@ -329,6 +355,16 @@ func main() {
 	switch os.Args[1] {
 	case "worker":
 		kit.ServeWorker(work)
+	case "prof":
+		// prof <out.pprof> <n> <expr>: CPU profile of n in-process invocations (development aid)
+		f, _ := os.Create(os.Args[2])
+		_ = pprof.StartCPUProfile(f)
+		b, _ := json.Marshal(Job{Expr: os.Args[4], TTY: true})
+		for k := 0; k < kit.Atoi(os.Args[3]); k++ {
+			work(b)
+		}
+		pprof.StopCPUProfile()
+		f.Close()
 	case "inventory":
 		inventory(os.Args[2])
 	case "eval1":
